@@ -697,10 +697,17 @@ pub fn run(ctx: &Ctx) -> i32 {
         if tot.panics > 0 {
             acc.violate(ci as u64, "panic_while_sampling", "mc:panic", detail.clone());
         }
-        if gamma_frac > 1e-5 {
+        if gamma_frac > 1e-5 && tot.errs_gamma >= 5 {
             // a positive-measure part of the hypercube returns GammaError and contributes nothing
             let sigk = if c.su.omega < 0.45 { "mc:gamma_errors_small_omega" } else { "mc:gamma_errors" };
             acc.violate(ci as u64, "points_that_contribute_nothing", sigk, detail.clone());
+        }
+        let matrix_frac = tot.errs_matrix as f64 / tot.n as f64;
+        acc.max("matrix_error_fraction", matrix_frac);
+        if matrix_frac > 1e-5 && tot.errs_matrix >= 20 {
+            // with every sub-dod >= 0.35 a MatrixError needs a Feynman-parameter spread beyond the
+            // f64 range (observed fraction ~1e-8); anything more frequent is points being dropped
+            acc.violate(ci as u64, "points_that_contribute_nothing", "mc:matrix_errors", detail.clone());
         }
         if unc > 0.5 * se && stage_no < 3 && z < 4.0 {
             // cannot resolve a bias at this resolution: neither held nor violated
